@@ -22,13 +22,14 @@ ShapesAll == {"ffns-up", "ffns-down", "vfns-up", "vfns-down"}
 Cells == IF Thorough
          THEN [kind : Kinds, order : 1..3, qed : {0}, shape : ShapesAll]
               \cup [kind : {"unpolarized"}, order : {1}, qed : {1}, shape : {"ffns-up", "ffns5-up"}]
-              \cup [kind : {"unpolarized"}, order : {1, 2}, qed : {0}, shape : {"ffns5-up"}]
+              \cup [kind : {"unpolarized"}, order : {1, 2}, qed : {0}, shape : {"ffns5-up", "vfns-down-charm"}]
          ELSE {[kind |-> "unpolarized", order |-> 1, qed |-> 0, shape |-> "ffns-up"],
                [kind |-> "unpolarized", order |-> 2, qed |-> 0, shape |-> "vfns-up"],
                [kind |-> "unpolarized", order |-> 2, qed |-> 0, shape |-> "vfns-down"],
                [kind |-> "polarized", order |-> 1, qed |-> 0, shape |-> "ffns-down"],
                [kind |-> "polarized", order |-> 2, qed |-> 0, shape |-> "vfns-up"],
-               [kind |-> "unpolarized", order |-> 1, qed |-> 1, shape |-> "ffns5-up"]}
+               [kind |-> "unpolarized", order |-> 1, qed |-> 1, shape |-> "ffns5-up"],
+               [kind |-> "unpolarized", order |-> 1, qed |-> 0, shape |-> "vfns-down-charm"]}
 TolDecade == 2
 C05_Conserved(c, momDec, numDec) ==
   IF c.kind = "unpolarized" THEN momDec >= TolDecade /\ numDec >= TolDecade
